@@ -138,6 +138,11 @@ func buildMsg(kind string, v int) any {
 			ResponsePayload: &payloads.GetResponsePayload{ObjectType: kmip.ObjectTypeSecretData, UniqueIdentifier: "id",
 				Object: &kmip.SecretData{SecretDataType: kmip.SecretDataTypePassword, KeyBlock: kmip.KeyBlock{KeyFormatType: kmip.KeyFormatTypeOpaque,
 					KeyValue: &kmip.KeyValue{Plain: &kmip.PlainKeyValue{KeyMaterial: kmip.KeyMaterial{Bytes: &key}}}}}}}}}
+	case "BareParams":
+		// a bare value with members of several introduction versions, written without a message header: every member is written,
+		// whatever was written through this encoder before it was cleared
+		return &kmip.CryptographicParameters{BlockCipherMode: kmip.BlockCipherModeGCM, TagLength: 16, RandomIV: ptr(true), SaltLength: ptr(int32(8)),
+			MaskGenerator: kmip.MaskGeneratorMGF1, IVLength: 12, FixedFieldLength: 4}
 	case "RespGetCustom":
 		// custom and unknown attributes whose values depend on v: decoded by many goroutines at once, each gets its own values
 		return &kmip.ResponseMessage{Header: sh, BatchItem: []kmip.ResponseBatchItem{{Operation: kmip.OperationGetAttributes,
@@ -180,6 +185,9 @@ func buildMsg(kind string, v int) any {
 }
 
 func newTarget(kind string) any {
+	if kind == "BareParams" {
+		return new(kmip.CryptographicParameters)
+	}
 	if strings.HasPrefix(kind, "Req") {
 		return new(kmip.RequestMessage)
 	}
@@ -207,6 +215,8 @@ func unmarshal(enc string, doc []byte, target any) error {
 }
 
 // exec one call; encoders: one reused (after Clear) per (goroutine, encoding) when Reuse, else fresh
+var clears int
+
 func execCall(c Call, reused map[string]*ttlv.Encoder) (digest string, doc []byte, err error) {
 	defer func() {
 		if r := recover(); r != nil {
@@ -219,7 +229,15 @@ func execCall(c Call, reused map[string]*ttlv.Encoder) (digest string, doc []byt
 		if c.Reuse {
 			if pe := reused[c.Enc]; pe != nil {
 				if !c.NoClear {
-					pe.Clear()
+					// an Encoder is a small value that is copied around: Clear through any copy clears them all (every second time
+					// it is called through a copy, the message is then written through the original)
+					clears++
+					if clears%2 == 0 {
+						cp := *pe
+						cp.Clear()
+					} else {
+						pe.Clear()
+					}
 				}
 				e = *pe
 			} else {
